@@ -161,14 +161,14 @@ func (r *Run) copyOp(st *State, args []Value, pos token.Pos) (Value, error) {
 		}
 		vals := make([]Value, n)
 		for i := 0; i < n; i++ {
-			v, err := r.rawLoad(st, Ptr{ID: s.ID, Path: append(append([]int(nil), s.Path...), s.Off+i)}, nil)
+			v, err := r.load(st, Ptr{ID: s.ID, Path: append(append([]int(nil), s.Path...), s.Off+i)}, nil, pos)
 			if err != nil {
 				return nil, err
 			}
 			vals[i] = v
 		}
 		for i := 0; i < n; i++ {
-			if err := r.rawStore(st, Ptr{ID: d.ID, Path: append(append([]int(nil), d.Path...), d.Off+i)}, vals[i]); err != nil {
+			if err := r.store(st, Ptr{ID: d.ID, Path: append(append([]int(nil), d.Path...), d.Off+i)}, vals[i], pos); err != nil {
 				return nil, err
 			}
 		}
@@ -257,7 +257,7 @@ func (r *Run) appendOp(st *State, args []Value, pos token.Pos) (Value, error) {
 		switch s := args[1].(type) {
 		case GSlice:
 			for i := 0; i < s.Len; i++ {
-				v, err := r.rawLoad(st, Ptr{ID: s.ID, Path: append(append([]int(nil), s.Path...), s.Off+i)}, nil)
+				v, err := r.load(st, Ptr{ID: s.ID, Path: append(append([]int(nil), s.Path...), s.Off+i)}, nil, pos)
 				if err != nil {
 					return nil, err
 				}
@@ -271,7 +271,7 @@ func (r *Run) appendOp(st *State, args []Value, pos token.Pos) (Value, error) {
 		}
 		if d.ID != 0 && d.Len+len(add) <= d.Cap {
 			for i, v := range add {
-				if err := r.rawStore(st, Ptr{ID: d.ID, Path: append(append([]int(nil), d.Path...), d.Off+d.Len+i)}, v); err != nil {
+				if err := r.store(st, Ptr{ID: d.ID, Path: append(append([]int(nil), d.Path...), d.Off+d.Len+i)}, v, pos); err != nil {
 					return nil, err
 				}
 			}
@@ -285,7 +285,7 @@ func (r *Run) appendOp(st *State, args []Value, pos token.Pos) (Value, error) {
 		e := make([]Value, nc)
 		var z Value
 		for i := 0; i < d.Len; i++ {
-			v, err := r.rawLoad(st, Ptr{ID: d.ID, Path: append(append([]int(nil), d.Path...), d.Off+i)}, nil)
+			v, err := r.load(st, Ptr{ID: d.ID, Path: append(append([]int(nil), d.Path...), d.Off+i)}, nil, pos)
 			if err != nil {
 				return nil, err
 			}
